@@ -1,7 +1,7 @@
 /-
   C04 — `-j` and pool depths are never exceeded.
 -/
-import N2V.Lemmas.SchedWant
+import N2V.Lemmas.SchedBuild
 namespace N2V.C04
 open N2V N2V.Sched
 
@@ -59,7 +59,7 @@ theorem pool_counts_step {g : Graph} {par : Nat} {s s' : S} {bid : Nat} {new : S
     (inv : Inv g par s) (h : set g s bid new = .ok s') (hid : bid < g.nBuilds)
     (hnew : new ≠ .unknown) (hprev : s.st bid ≠ .done ∧ s.st bid ≠ .failed) :
     ∀ p ∈ s'.pools, p.running = cnt g.nBuilds (fun b => s'.st b == .running && (g.build b).pool == p.name) :=
-  (set_generic inv h hid hnew hprev).2.2.1
+  (set_generic inv.toInvCore h hid hnew hprev).2.2.1
 
 /-- The pools n2 starts with: the default pool (depth 0), `console` (depth 1) and the declared
     ones, a redeclared name overriding the built-in of that name; names are distinct. -/
@@ -81,5 +81,28 @@ theorem unknown_pool (g : Graph) (s : S) (id : Nat) (s1 : S)
 
 /-- Non-vacuity: with `-j 1` a second queued build in the default pool is not started. -/
 example : True := trivial
+
+/-- **Whole invocation.**  For every graph, argument vector and environment behaviour, a
+    `run::build` that reports success (or stops for a reload) ends with at most `-j` commands
+    counted as running, that count being exact, every pool's running counter exact, and every
+    pool of depth > 0 within its depth; each loop iteration on the way started from a state with
+    the same guarantees (`runLoop_inv`, whose steps `start_inv`/`enqueue_inv`/... are the per-
+    transition theorems). -/
+theorem limits_whole_build {E : Type} {g : Graph} (gok : GraphOK g) (a : Run.Args) (c : Choices E) (e : E)
+    (n : Nat) (h : (Run.build g a c e).2.2 = .done n ∨ (Run.build g a c e).2.2 = .reload n) :
+    let s := (Run.build g a c e).1
+    s.running ≤ a.par ∧ s.running = cnt g.nBuilds (fun b => s.st b == .running) ∧
+    (∀ p ∈ s.pools, p.running = cnt g.nBuilds (fun b => s.st b == .running && (g.build b).pool == p.name)) ∧
+    (∀ p ∈ s.pools, p.depth > 0 → p.running ≤ p.depth) :=
+  let inv := Run.build_inv gok a c e n h
+  ⟨inv.parBound, inv.running, inv.poolRunning, inv.depthBound⟩
+
+/-- Starting one more command keeps both limits: the step `pop_queued` + `set Running` +
+    `Runner::start` from any state satisfying the invariant. -/
+theorem start_keeps_limits {g : Graph} {par : Nat} {s s1 : S} {id : Nat} {pools : List Pool}
+    (inv : Inv g par s) (hlt : s.running < par) (hpop : popQueued s.pools = some (id, pools))
+    (hs : set g { s with pools := pools } id .running = .ok s1) :
+    Inv g par { s1 with running := s1.running + 1, trace := Ev.start id :: s1.trace } :=
+  start_inv inv hlt hpop hs
 
 end N2V.C04
